@@ -2,7 +2,7 @@
 //@ enforce: btls_accept
 //@ replace: finalize_tls_conf set_verify enable_hostname_validation try_finish_tls_handshake deinit
 //@ flags: --object-bits 10
-//@ props: C09 C18
+//@ props: C09 C18 C02
 //@ expect: postcondition>=7 canary=7
 #include "_unit.h"
 void harness(void)
